@@ -60,17 +60,14 @@ class Ctx:
                                        % (cfg, len(f.bodies), build.MIN_BODIES[cfg]))
             self._facts[cfg] = f
         from .inline import InlinedFacts, normalised
-        if self.view == "inlined":
-            if cfg not in self._views:
-                self._views[cfg] = InlinedFacts(self._facts[cfg])
-            return self._views[cfg]
-        key = ("norm", cfg)
+        if self.view is None:
+            return self._facts[cfg]
+        key = (self.view, cfg)
         if key not in self._views:
-            self._views[key] = normalised(self._facts[cfg])
-            nh = getattr(self._views[key], "new_helpers", None)
-            if nh:
-                self.note("config %s: %d private helper(s) not in tables/head_functions.json folded into their callers before "
-                          "analysis: %s" % (cfg, len(nh), ", ".join(nh[:8])))
+            if self.view == "norm":
+                self._views[key] = normalised(self._facts[cfg])
+            else:
+                self._views[key] = InlinedFacts(self._facts[cfg])
         return self._views[key]
 
     def configs(self):
@@ -150,27 +147,38 @@ def run_property(prop, tier="quick", seed=0, explain=None):
         return 2
     known = load_known()
     known_keys = {k["key"]: k for k in known.get("findings", []) if k.get("property") == prop}
-    # Second view.  An obligation that does not hold on the program as written is re-examined on the same program with
-    # its private helper functions inlined into their callers (a semantics-preserving rewrite of the MIR): extracting
-    # or folding a private helper must not change a verdict.  Only failures are ever rescued, nothing is added.
-    failing = [o for o in ctx.obligations if not o.ok and vkey(prop, o) not in known_keys and o.rule != "ENGINE"]
-    if failing:
+    # Further views.  An obligation that does not hold on the program as written is re-examined on semantics-preserving
+    # rewrites of the same MIR: (norm) private helpers that did not exist when the rules were written
+    # (tables/head_functions.json) folded into their callers; (inlined) all private helpers folded in.  Extracting or
+    # folding a private helper must not change a verdict.  Only failures are ever rescued; nothing is added.
+    for view in ("norm", "inlined"):
+        failing = [o for o in ctx.obligations if not o.ok and vkey(prop, o) not in known_keys and o.rule != "ENGINE"]
+        if not failing:
+            break
         ctx2 = Ctx(prop, tier, seed)
-        ctx2.view = "inlined"
+        ctx2.view = view
         ctx2._facts = ctx._facts
+        ctx2._views = ctx._views
         try:
+            skip = True
             for cfg in sorted({o.cfg for o in failing}):
                 ctx2.cfg = cfg
+                v = ctx2.facts(cfg)
+                if view == "norm" and not getattr(v, "new_helpers", None):
+                    continue            # nothing to fold: this view is the program as written
+                skip = False
                 mod.run(ctx2)
+            if skip:
+                continue
             second = {}
             for o in ctx2.obligations:
                 second.setdefault((o.cfg, o.rule, o.key), []).append(o)
             absorbed = {}
-            for cfg, v in ctx2._views.items():
-                if isinstance(cfg, str):
-                    absorbed[cfg] = v.absorbed
+            for (vw, cfg), v in ctx2._views.items():
+                if vw == view:
+                    absorbed[cfg] = getattr(v, "absorbed", set())
             first_keys = {(o.cfg, o.rule, o.key) for o in ctx.obligations}
-            # constructs that exist only in the second view: code of an absorbed helper, now seen inside its callers
+            # constructs that exist only in this view: code of an absorbed helper, now seen inside its callers
             moved_bad = {}
             for (cfg, rule, key), alts in second.items():
                 if (cfg, rule, key) not in first_keys and any(not a.ok for a in alts):
@@ -180,9 +188,10 @@ def run_property(prop, tier="quick", seed=0, explain=None):
                 alt = second.get((o.cfg, o.rule, o.key))
                 if alt and all(a.ok for a in alt):
                     o.ok = True
-                    o.what += "  [holds with private helpers inlined]"
+                    o.what += "  [holds with %s]" % ("newly extracted private helpers folded back" if view == "norm" else "private helpers inlined")
                     rescued += 1
-                elif alt is None and not o.key.startswith("floor:") and any(a in o.key for a in absorbed.get(o.cfg, ())):
+                elif alt is None and not o.key.startswith("floor:") and \
+                        any(a in o.key or a.rsplit("::", 2)[-2] + "::" + a.rsplit("::", 1)[-1] in o.key for a in absorbed.get(o.cfg, ()) if "::" in a):
                     # about a construct inside a private helper that is inlined into all its callers: judged there
                     bad = moved_bad.get((o.cfg, o.rule), [])
                     if not bad:
@@ -192,11 +201,11 @@ def run_property(prop, tier="quick", seed=0, explain=None):
                     else:
                         o.detail = {"in_callers": [b.key[:200] for b in bad[:4]], "own": o.detail}
             if rescued:
-                ctx.note("%d obligation(s) established on the view with private helpers inlined" % rescued)
+                ctx.note("%d obligation(s) established on the view '%s'" % (rescued, view))
         except build.BuildError:
             raise
         except Exception as e:
-            ctx.note("second view failed: %s: %s" % (type(e).__name__, str(e)[:200]))
+            ctx.note("view %s failed: %s: %s" % (view, type(e).__name__, str(e)[:200]))
     viol = []
     knownhit = []
     seen = set()
